@@ -192,7 +192,7 @@ sb_error_t sb_uint32_msec_duration_from_float_seconds(uint32_t* result_msec, flo
         return SB_EINVAL;
     }
 
-    if (!isfinite(duration_sec) || duration_sec > MAX_DURATION_SEC) {
+    if (!isfinite(duration_sec) || duration_sec >= MAX_DURATION_SEC) {
         return SB_EOVERFLOW;
     }
 
